@@ -30,6 +30,13 @@ def breaker_cfg(draw):
         spec["trip_on"] = []
     elif t == "all":
         spec["trip_on"] = list(CLASSES)
+    if gen.chance(draw, 0.25, "bm-alias"):
+        spec["alias"] = draw(st.sampled_from(["RATE_LIMIT", "UNKNOWN", "PERMANENT", "TRANSIENT"]))
+        spec["alias_reset"] = draw(st.booleans())
+        spec["alias_clear"] = draw(st.booleans())
+    if gen.chance(draw, 0.08, "bm-big"):
+        spec["threshold"] = draw(st.sampled_from([63, 64, 65, 66, 100]))
+        spec["window"] = 256
     if gen.chance(draw, 0.5, "bm-ct"):
         spec["class_thresholds"] = draw(st.dictionaries(st.sampled_from(CLASSES), st.sampled_from([1, 2, 2, 3]), min_size=1, max_size=2))
     return spec
@@ -48,6 +55,7 @@ def op_st(counted: list):
         st.tuples(st.just("fail"), st.sampled_from(CLASSES)),
         st.tuples(st.just("cancel")),
         st.tuples(st.just("state")),
+        st.tuples(st.just("fail_n"), st.sampled_from(counted), st.sampled_from([10, 62, 63, 64, 65])),  # a burst of failures
         st.tuples(st.just("adv"), st.sampled_from([1, 1, 2, 4, 16, 64])),
         st.tuples(st.just("adv_rec"), st.sampled_from([-1, 0, 0, 1])),  # to recovery boundary (+/- 1 tick)
         st.tuples(st.just("adv_win"), st.sampled_from([-1, 0, 0, 1])),  # oldest live failure ages to window (+/- 1)
@@ -70,11 +78,30 @@ def history_case(draw, max_ops: int = 60):
 
 def make_real(spec: dict) -> CircuitBreaker:
     kw: dict = dict(failure_threshold=spec["threshold"], window_s=g(spec["window"]), recovery_timeout_s=g(spec["recovery"]))
+    shared = None
     if spec.get("trip_on") is not None:
-        kw["trip_on"] = {ErrorClass[k] for k in spec["trip_on"]}
+        shared = {ErrorClass[k] for k in spec["trip_on"]}
+        kw["trip_on"] = shared
+    cts = None
     if spec.get("class_thresholds"):
-        kw["class_thresholds"] = {ErrorClass[k]: v for k, v in spec["class_thresholds"].items()}
-    return CircuitBreaker(**kw)
+        cts = {ErrorClass[k]: v for k, v in spec["class_thresholds"].items()}
+        kw["class_thresholds"] = cts
+    alias = spec.get("alias")
+    if alias and shared is not None:
+        # the caller's own set object is also used for another breaker that has a class threshold ...
+        CircuitBreaker(failure_threshold=1, window_s=1.0, recovery_timeout_s=1.0, trip_on=shared, class_thresholds={ErrorClass[alias]: 1})
+        if spec.get("alias_reset"):
+            shared.discard(ErrorClass[alias]) if alias not in spec["trip_on"] else None
+    b = CircuitBreaker(**kw)
+    if alias:
+        # ... and is edited by the caller afterwards; neither may influence this breaker's configuration
+        if shared is not None:
+            shared.add(ErrorClass[alias])
+            if spec.get("alias_clear"):
+                shared.clear()
+        if cts is not None:
+            cts[ErrorClass[alias]] = 1
+    return b
 
 
 def run_history(case: dict):
@@ -122,7 +149,20 @@ def run_history(case: dict):
                         adv_since_fail = True
                         info["boundary_age"] = True
                 continue
-            if kind == "allow":
+            if kind == "fail_n":
+                got = want = None
+                prop = "C06"
+                for _ in range(op[2]):
+                    bstate = m.state
+                    got = real.record_failure(ErrorClass[op[1]])
+                    want = m.record_failure(t, op[1])
+                    if want == "circuit_opened":
+                        info["opens"] += 1
+                    if got != want or real.state.value != m.state:
+                        prop = "C07" if bstate in ("half_open", "open") else "C06"
+                        break
+                adv_since_fail = False
+            elif kind == "allow":
                 d = real.allow()
                 got = (d.allowed, d.state.value, d.event)
                 want = m.allow(t)
